@@ -200,3 +200,40 @@ func VerifC02_DpstrfNoPositiveDiagF() {
 	verifC02otherTriSame(uplo, blas.NonUnit, a, a0, n, lda, "Dpstrf: other triangle and padding untouched")
 	verifReach("end")
 }
+
+// VerifC02_DpstrfStructureF (model F: arithmetic uninterpreted, so every pivot
+// order and every stopping step is a feasible path; cells may be NaN/Inf): for
+// an arbitrary matrix and tolerance piv is a permutation, 0 <= rank <= n,
+// ok == (rank == n), and the unreferenced triangle and the padding are
+// bit-identical. Covers n = 3, where the algebraic identity is not decided.
+func VerifC02_DpstrfStructureF() {
+	n := verifChoose("n", 0, verifParam("pstsn", 3))
+	uplo := verifC02uplo("uplo")
+	blocked := verifParam("pstsblocked", 1) == 1 // Dpstrf dispatches to Dpstf2 at these sizes: one call covers both
+	lda := verifC02ld("ldaPad", n)
+	a := verifC02mat("a", n, n, lda)
+	a0 := verifC02clone(a)
+	tol := verifFloat("tol")
+	piv := make([]int, n)
+	for i := range piv {
+		piv[i] = -7
+	}
+	work := verifFloats("work", 2*n)
+	var rank int
+	var ok bool
+	if blocked {
+		rank, ok = Implementation{}.Dpstrf(uplo, n, a, lda, piv, tol, work)
+	} else {
+		rank, ok = Implementation{}.Dpstf2(uplo, n, a, lda, piv, tol, work)
+	}
+	verifAssert(verifAnd(0 <= rank, rank <= n), "Dpstrf: 0 <= rank <= n")
+	verifAssert(ok == (rank == n), "Dpstrf: ok exactly when rank == n")
+	for i := range piv {
+		verifAssert(verifAnd(0 <= piv[i], piv[i] < n), "Dpstrf: piv[i] in [0,n)")
+		for j := i + 1; j < n; j++ {
+			verifAssert(piv[i] != piv[j], "Dpstrf: piv is a permutation")
+		}
+	}
+	verifC02otherTriSame(uplo, blas.NonUnit, a, a0, n, lda, "Dpstrf: other triangle and padding untouched")
+	verifReach("end")
+}
